@@ -30,7 +30,7 @@ CLAIM = {
             "outgoing summary reads the holder's offered and the counterparty's received HTLCs, unions them and keeps "
             "the *larger* amount per hash; the incoming summary reads the holder's received and the counterparty's "
             "offered HTLCs, intersects them and keeps the *smaller* amount; summarize_payments adds the parts of one "
-            "hash. Does not decide the conservation inequality across "
+            "hash. (R6.6) the payment summaries are computed from the whole supplied content: nothing drops or alters an HTLC between the request and the validated / recorded CommitmentInfo2. Does not decide the conservation inequality across "
             "channels and histories (sums over runtime maps).",
     "note": "non-permissive policy; summaries' min/max view logic (payments_summary) inspected only for slot usage",
     "technique": "static analysis: must-pass-through + provenance slices (slot agreement) + guard scenarios",
@@ -45,6 +45,7 @@ def run(ctx):
     r63(ctx)
     r64(ctx)
     r65(ctx)
+    r_content(ctx)
 
 
 def _named(fv, name):
@@ -436,3 +437,12 @@ def r65(ctx):
     R.who_may_call(ctx, "R6.5", lambda n: n == f"{NS}::is_invoice_prunable",
                    {f"{NS}::prune_invoices": "approved invoices", f"{NS}::prune_issued_invoices": "issued invoices"},
                    "is_invoice_prunable", floor=1, exclude=R.is_test_util)
+
+
+def r_content(ctx):
+    """the in-flight sums of C06 are computed from the HTLC lists of the CommitmentInfo2; an HTLC dropped while that value is built is not counted"""
+    from rules import C04 as _c04
+    ctx.rule("R6.6", "the commitment content that is validated and recorded is the content the caller supplied: the info "
+                    "builders forward balances, both HTLC lists and the feerate unmodified and CommitmentInfo2::new only sorts "
+                    "(same obligations as the first part of C04 R4.3)")
+    _c04.content_passthrough(ctx, rid="R6.6")
